@@ -1,0 +1,117 @@
+//go:build verif
+
+// Contracts for the govc verifier (see /verif/DESIGN.md). Comment-only file.
+package randz
+
+//@ spec alpha(k int) int = encodeBase32Map[k]
+//@ spec inAlpha(b int) bool = !(forall k in 0..32: encodeBase32Map[k] != b)
+
+//@ global decodeBase32Map:
+//@   invariant forall k in 0..32: decodeBase32Map[encodeBase32Map[k]] == k
+//@   invariant forall b in 0..256: (forall k in 0..32: encodeBase32Map[k] != b) ==> decodeBase32Map[b] == 255
+
+//@ func init
+//@   loop 1:
+//@     invariant 0 <= i && i <= 256
+//@     invariant forall k in 0..i: decodeBase32Map[k] == 255
+//@     decreases 256 - i
+//@   loop 2:
+//@     unroll 33
+
+//@ recspec b32val(s bytes, i int, tab seq) int = ite(i <= 0, 0, b32val(s, i-1, tab)*32 + tab[s[i-1]])
+
+//@ func ParseBase32
+//@   wraps
+//@   ensures (result2 == nil) == (forall k in 0..len(b): decodeBase32Map[b[k]] != 255)
+//@   ensures result2 != nil ==> result1 == -1 && result2 == ErrInvalidBase32
+//@   ensures (result2 == nil && len(b) <= 12) ==> result1 == b32val(b, len(b), decodeBase32Map) && result1 >= 0
+//@   loop 1:
+//@     invariant forall k in 0..i: decodeBase32Map[b[k]] != 255
+//@     invariant i <= 12 ==> id == b32val(b, i, decodeBase32Map) && 0 <= id && id < (1 << (5*i))
+//@     decreases len(b) - i
+
+//@ spec rem32(n int) int = ite(n == 0, 9223372036854775808, ite(n == 1, 288230376151711744, ite(n == 2, 9007199254740992, ite(n == 3, 281474976710656, ite(n == 4, 8796093022208, ite(n == 5, 274877906944, ite(n == 6, 8589934592, ite(n == 7, 268435456, ite(n == 8, 8388608, ite(n == 9, 262144, ite(n == 10, 8192, ite(n == 11, 256, ite(n == 12, 8, 0)))))))))))))
+
+//@ func ID.Base32
+//@   requires f >= 0
+//@   ensures 1 <= len(result) && len(result) <= 13
+//@   ensures forall k in 0..len(result): decodeBase32Map[result[k]] != 255
+//@   loop 1:
+//@     invariant 0 <= f && len(b) <= 12
+//@     invariant cap(b) >= 12
+//@     invariant fresh(b)
+//@     invariant oldUntouched(b)
+//@     invariant f < rem32(len(b))
+//@     invariant forall k in 0..len(b): decodeBase32Map[b[k]] != 255
+//@     decreases f
+//@   loop 2:
+//@     invariant 0 <= x && x <= y + 1 && y < len(b) && x + y == len(b) - 1 && oldUntouched(b)
+//@     invariant forall k in 0..len(b): decodeBase32Map[b[k]] != 255
+//@     decreases y - x + 1
+
+//@ spec idGenOK(r ref) bool = 2 <= r.randBit && r.randBit <= 22 && r.randMax == (1 << r.randBit) && r.timeMask == 2199023255551 && r.timeShift == r.randBit
+
+//@ func NewIdGenerator
+//@   ensures idGenOK(result)
+//@   ensures result.randBit == ite(randBit <= 1, 16, ite(randBit > 22, 22, randBit))
+
+//@ func IdGenerator.Generate
+//@   requires idGenOK(r)
+//@   ensures result >= 0
+//@   ensures result % (1 << r.randBit) < (1 << r.randBit)
+//@   ensures result / (1 << r.randBit) <= 2199023255551
+
+//@ spec strGenOK(r ref) bool = len(r.charSet) >= 1 && 1 <= r.charIdxBits && r.charIdxBits <= 48 && r.charIdxMask == (1 << r.charIdxBits) - 1 && len(r.charSet) < (1 << r.charIdxBits) && r.charIdxMax >= 1 && r.randSource != nil
+
+//@ func NewStrGenerator
+//@   requires len(charSet) >= 1 && randSource != nil
+//@   ensures strGenOK(result)
+//@   loop 1:
+//@     unroll 50
+
+//@ func StrGenerator.Generate
+//@   noterm
+//@   ghost cnt = 0
+//@   requires strGenOK(r) && n >= 0
+//@   loop 1:
+//@     invariant -1 <= i && i == n - 1 - cnt && 0 <= remain && remain <= r.charIdxMax && 0 <= cache
+//@     invariant fresh(buf.buf) && oldUntouched(buf.buf)
+//@   at after-call6:
+//@     ghost cnt = cnt + 1
+//@   at end:
+//@     assert cnt == n
+
+//@ func CountGenerator.getRand
+//@   requires max >= 0 && max <= 4294967295
+//@   ensures max == 0 ==> result == 0
+//@   ensures max > 0 ==> 1 <= result && result <= max
+
+//@ spec ruleOK(r ref, k int) bool = 0 < r.rules[k].period && r.rules[k].period <= 1048576 && 0 < r.rules[k].interval && r.rules[k].interval <= 1048576 && 0 <= r.rules[k].periodEndMaxIncr && r.rules[k].periodEndMaxIncr <= 1048576 && 0 <= r.rules[k].intervalMaxIncr && r.rules[k].intervalMaxIncr <= 1048576
+//@ spec rulesOK(r ref) bool = len(r.rules) <= 1024 && (forall k in 0..len(r.rules): ruleOK(r, k)) && forall k in 0..len(r.rules)-1: r.rules[k].period < r.rules[k+1].period
+
+//@ func CountGenerator.Generate
+//@   requires rulesOK(r) && diff <= 1073741824
+//@   ensures 0 <= result
+//@   loop 1:
+//@     invariant 0 <= count && count <= idx1 * 1100586419200 && 0 <= lastPeriod && lastPeriod <= diff
+//@     invariant idx1 > 0 ==> lastPeriod == r.rules[idx1-1].period
+//@     invariant idx1 == 0 ==> lastPeriod == 0
+//@     decreases len(r.rules) - idx1
+
+//@ func CountGenerator.Max
+//@   requires rulesOK(r) && diff <= 1073741824
+//@   ensures 0 <= result
+//@   loop 1:
+//@     invariant 0 <= count && count <= idx1 * 1100586419200 && 0 <= lastGradient && lastGradient <= diff
+//@     invariant idx1 > 0 ==> lastGradient == r.rules[idx1-1].period
+//@     invariant idx1 == 0 ==> lastGradient == 0
+//@     decreases len(r.rules) - idx1
+
+//@ func CountGenerator.Min
+//@   requires rulesOK(r) && diff <= 1073741824
+//@   ensures 0 <= result
+//@   loop 1:
+//@     invariant 0 <= count && count <= idx1 * 1100586419200 && 0 <= lastGradient && lastGradient <= diff
+//@     invariant idx1 > 0 ==> lastGradient == r.rules[idx1-1].period
+//@     invariant idx1 == 0 ==> lastGradient == 0
+//@     decreases len(r.rules) - idx1
